@@ -110,6 +110,7 @@ func c03(p *core.Program, r *core.Report) {
 	errflowRule(p, r, tE, pkgFuncs(p, decoderPkgs...), nil)
 	readerDiscipline(p, r, "reader-discipline")
 	outputIndexCoversLoopsRule(p, r, "output-index-covers-loops")
+	floatWriterUnconditionalRule(p, r, "float-writer-unconditional")
 	encoderRecursionRule(p, r, "encoder-recursion-depth-bounded", [][3]string{{"encoding/wkb", "Write", "wkb.Write"}, {"encoding/ewkb", "Write", "ewkb.Write"}}, "wkb.Write and ewkb.Write")
 
 	// ---------- SRID
